@@ -18,13 +18,15 @@ def run(ctx):
     #    the domain with fewer clock rates / channel counts, the thorough tier the whole domain)
     mc = vlib.tlc_model(ctx, "CodecMatch", "CodecMatch_MCQ" if quick else "CodecMatch_MC", workers=16, timeout=400)
     ctx.cov["model_descriptors_exhausted"] = max(0, mc.distinct - 16)
-    # 1b. the as-is variant (defaults keyed by ToLower, comparison by EqualFold): TLC exhibits the
-    #     counterexample to symmetry itself
+    # 1b. the variant of the pinned code before the repair of fmtp.go (defaults keyed by ToLower,
+    #     comparison by EqualFold): TLC exhibits the counterexample to symmetry that was found with it.
+    #     Documentation only; nothing below depends on it.
     asis = vlib.tlc_expect_violation(ctx, "CodecMatch", "CodecMatch_asis", workers=16, timeout=400)
-    ctx.cov["asis_model_rc"] = asis.rc
-    ctx.cov["asis_model_counterexample"] = "Invariant ModelSymmetric is violated" in asis.stdout
+    ctx.cov["pinned_code_variant_model_rc"] = asis.rc
+    ctx.cov["pinned_code_variant_counterexample"] = "Invariant ModelSymmetric is violated" in asis.stdout
 
-    # 2. the pairs to replay, with the codes the as-is transcription predicts
+    # 2. the pairs to replay, with the codes the transcription of the current code predicts
+    #    (Impl = "intended": defaults keyed with the same folding as the mime comparison)
     em = vlib.tlc_model(ctx, "CodecMatch", "CodecMatch_EmitQ" if quick else "CodecMatch_EmitT", workers=1, timeout=500)
     rows = sorted((v[0] for v in em.tag("VERIF_VEC")), key=lambda r: r["a"])
     if not rows or [r["a"] for r in rows] != list(range(1, len(rows) + 1)):
